@@ -102,14 +102,17 @@ DupLast == /\ pc = "step" /\ i = T - 1
            /\ UNCHANGED <<m, cfg, i, prev, rows, hedge, branch>>
 
 Batched == /\ pc = "batched"
-           /\ rows' = [j \in 1..T |-> RowAll(cfg.feats, m, j)]
-           /\ outs' = [j \in 1..T |-> Model(cfg, RowAll(cfg.feats, m, j))]
-           /\ prev' = <<>>                        \* the hook stores the whole (N, T, H) output; nobody reads it
+           \* the model is evaluated for the steps 0..T-2 in one call (the row of the maturity step is not fed to it:
+           \* a model that is singular at maturity must not take part in the backward pass - repository fix c001104)
+           /\ rows' = [j \in 1..(T - 1) |-> RowAll(cfg.feats, m, j)]
+           /\ outs' = [j \in 1..(T - 1) |-> Model(cfg, RowAll(cfg.feats, m, j))]
+           /\ prev' = <<>>                        \* the hook stores the whole (N, T-1, H) output; nobody reads it
            /\ pc' = "overwrite"
            /\ UNCHANGED <<m, cfg, i, hedge, branch>>
 
+\* the position at the final index repeats the last one (same as DupLast of the step-by-step branch)
 OverwriteLast == /\ pc = "overwrite"
-                 /\ outs' = [outs EXCEPT ![T] = outs[T - 1]]
+                 /\ outs' = Append(outs, outs[T - 1])
                  /\ pc' = "transpose"
                  /\ UNCHANGED <<m, cfg, i, prev, rows, hedge, branch>>
 
